@@ -9,6 +9,7 @@ From Verif Require Import Proto.Ext Generated.ProtoGen Proto.Model Proto.PrimSpe
 From Verif Require Import Json.Ext Generated.JsonParseGen Json.Grammar Json.Spec.
 From Verif Require Import Thrift.Model Thrift.Spec.
 From Verif Require Import Json.StreamModel Json.StateSpec.
+From Verif Require Import Proto.RewriteModel Proto.ScanModel.
 Extraction Language OCaml.
 Extraction "model.ml"
   iso8601_Parse iso8601_Valid time_parse rfc3339nano_layout iso_spec
@@ -19,4 +20,5 @@ Extraction "model.ml"
   Proto.Model.Size Proto.Model.Marshal Proto.Model.MarshalTo Proto.Model.Unmarshal zero_val codec_of type_ok numbers_ok wf_val representable keys_distinct norm
   json_Valid g_valid std_valid json_escapeIndex first_index needs_escape_json json_decoder_parseValue json_internalParseFlags
   TMarshal TUnmarshal zero_of enc dec ty_ok tval_wf tnorm spec_enc pkg_dev no_dev
-  d_init decode_all tokenize spec_tokens frame.
+  d_init decode_all tokenize spec_tokens frame
+  Proto.ScanModel.Scan.
